@@ -7,6 +7,15 @@ import GradysProofs.Lemmas.SimCount
   (it executes at its timestamp) gives the run-level statement: the theorems below say that a
   command creates exactly the delivery events of its addressees, due at send time + delay, and that
   executing such an event is one `handle_packet` call with the unchanged payload on the addressee.
+  The composition itself is kernel-checked as RUN-LEVEL COUNTING over the trace of every reachable
+  world, for every configuration and every protocol program (end of this file):
+   * `C08_run_count` / `C08_run_count_any_time`  `handle_packet(msg)` calls on `dst` (reporting `t`) =
+                         executed delivery events for `(dst, msg)` (due at `t`); created = executed + queued;
+   * `C08_run_addressees`  for EVERY medium: created delivery events for `(dst, msg)` ≤ accepted
+                         `send(msg, dst)` + accepted `broadcast(msg)` by nodes other than `dst`;
+   * `C08_run_lossfree_equality`  loss-free, every range test of the run true: the bound is an equality;
+   * `C08_run_exactly_once`  ... and on an exhausted run `handle_packet(msg)` calls on `dst` are exactly
+                         the accepted requests addressing `dst` with `msg`.
 -/
 set_option linter.unusedSectionVars false
 
@@ -167,6 +176,62 @@ theorem C08_run_addressees {cfg : Config S} {P : NodeId → Proto S σ} {w : Wor
   unfold createdTo accSendTo accBcastNotBy
   rw [accepted_countP, trace_countP, trace_countP, ← isAddrAcc_count]
   exact h1
+
+/-- the same without the time: `handle_packet(msg)` calls on `dst` = executed delivery events for
+    `(dst, msg)`; created = executed + queued. No hypothesis on the configuration at all. -/
+theorem C08_run_count_any_time {cfg : Config S} (hdt : 0 ≤ cfg.dt)
+    {P : NodeId → Proto S σ} {w : World S σ} (h : Reachable cfg P w) (dst : NodeId) (msg : String) :
+    handledTo w dst msg = execdTo w dst msg ∧
+    createdTo w dst msg = execdTo w dst msg + queuedTo w dst msg := by
+  have h1 := reachable_count (spec_handledTo σ cfg dst msg) h
+  have h3 := winv_countP (reachable_inv hdt h) (isDeliverTo dst msg)
+  simp only [mA_right, mT] at h1
+  unfold handledTo createdTo execdTo queuedTo
+  rw [trace_countP, accepted_countP, executed_countP]
+  omega
+
+/-- "every `inRange` test made during the first `k` steps of the run succeeded": `RangeOkReq` holds in
+    the world in which each `send` / `broadcast` request of the run is executed (`OkSteps` carries it
+    through `step`, `execEv`, `callback`, `runProg`) -/
+abbrev RangeOkRun (cfg : Config S) (P : NodeId → Proto S σ) (k : Nat) : Prop :=
+  OkSteps (RangeOkReq cfg) cfg P k (init cfg P)
+
+/-- loss-free medium and every range test along the run true: the addressing bound is an equality —
+    every accepted `send(msg, dst)` and every accepted `broadcast(msg)` of another node created exactly
+    one delivery event for `(dst, msg)`, and nothing else did -/
+theorem C08_run_lossfree_equality {cfg : Config S} (hc : cfg.hasComm = true)
+    (hl : Scalar.gt cfg.failRate (Scalar.ofInt 0) = false) {P : NodeId → Proto S σ} (k : Nat)
+    (hok : RangeOkRun cfg P k) (dst : NodeId) (hdst : dst < cfg.nNodes) (msg : String) :
+    createdTo (steps cfg P k (init cfg P)) dst msg =
+      accSendTo (steps cfg P k (init cfg P)) dst msg + accBcastNotBy (steps cfg P k (init cfg P)) dst msg := by
+  have h1 := steps_count (spec_addr_eq σ hc hl dst hdst msg) P k hok
+  simp only [mA_left, mT] at h1
+  unfold createdTo accSendTo accBcastNotBy
+  rw [accepted_countP, trace_countP, trace_countP, ← isAddrAcc_count]
+  exact h1
+
+/-- C08 at run level: loss-free medium, every range test true, run exhausted (empty queue) — node
+    `dst` handled the payload `msg` exactly once per accepted `send(msg, dst)` and per accepted
+    `broadcast(msg)` of another node, and never otherwise -/
+theorem C08_run_exactly_once {cfg : Config S} (hc : cfg.hasComm = true)
+    (hl : Scalar.gt cfg.failRate (Scalar.ofInt 0) = false) (hdt : 0 ≤ cfg.dt) {P : NodeId → Proto S σ}
+    (k : Nat) (hok : RangeOkRun cfg P k) (hq : (steps cfg P k (init cfg P)).loop.queue = [])
+    (dst : NodeId) (hdst : dst < cfg.nNodes) (msg : String) :
+    handledTo (steps cfg P k (init cfg P)) dst msg =
+      accSendTo (steps cfg P k (init cfg P)) dst msg + accBcastNotBy (steps cfg P k (init cfg P)) dst msg := by
+  have h1 := C08_run_lossfree_equality hc hl k hok dst hdst msg
+  have h2 := C08_run_count_any_time hdt (P := P) ⟨k, rfl⟩ dst msg
+  have hq0 : queuedTo (steps cfg P k (init cfg P)) dst msg = 0 := by unfold queuedTo; rw [hq]; rfl
+  omega
+
+/-- non-vacuity of `RangeOkRun`: it holds for every run when all nodes are always in range -/
+example (cfg : Config S) (P : NodeId → Proto S σ) (k : Nat)
+    (hall : ∀ (w : World S σ) (a b : NodeId), inRange w a b = true) : RangeOkRun cfg P k := by
+  refine okSteps_of_forall (fun n r w => ?_) k _
+  cases r with
+  | send msg d => cases d <;> simp [RangeOkReq, hall]
+  | broadcast msg => intro d _ _; exact hall w n d
+  | _ => trivial
 
 /-- non-vacuity: the refusal cases are reachable with a configured handler -/
 example (cfg : Config S) (hc : cfg.hasComm = true) (w : World S σ) :
